@@ -26,6 +26,7 @@ def relation(world, u, v):
 
 class Check(CheckBase):
     property_id = 'C06'
+    evaluations_counter = 'histories'
     level = 'exploration'
     rule = ('encrypted repositories with key graphs of 2-5 keys (owner, shared, shared-of-shared, clone, independent; varied '
             'KDF parameters); every user takes snapshots over overlapping file sets; then (1) the full (password x key) unlock '
